@@ -142,7 +142,13 @@ def wf_e(s):
     return True
 
 
+def has_leaf_p(s):
+    """mentions a leaf point, caches ignored"""
+    return s[0] == "PLeaf" or any(has_leaf_p(t) for t in s[2])
+
+
 def has_leaf_e(s):
+    """mentions a leaf, caches ignored"""
     return s[0] == "ELeaf" or any(t[0] in ("TExpr", "TInner") for t in s[2])
 
 
@@ -157,26 +163,28 @@ def outcome(f):
 class Case(object):
     """one accessor call on one object: builds the model input BEFORE the call (eval caches)"""
 
-    def __init__(self, label, obj, dual=False):
+    def __init__(self, label, obj, dual=False, never_solved=False):
+        """never_solved: nothing has been solved successfully since the process-wide reset that created the object's
+        leaves -- then even a cache must not answer (a cache can only have been filled by a fabricated value)"""
         from PEPit import Point, Expression, Constraint, PSDMatrix
         self.label, self.dual = label, dual
         dim = Point.counter
         if isinstance(obj, Point):
             s = snap_point(obj)
             self.kind, lit = "point", "inl (inl (inl (%s)))" % coq_point(s)
-            self.must_raise = pending_p(s)
+            self.must_raise = pending_p(s) or (never_solved and has_leaf_p(s))
         elif isinstance(obj, Expression):
             s = snap_expr(obj)
             self.kind, lit = "expression", "inl (inl (inr (%s)))" % coq_expr(s)
-            self.must_raise = wf_e(s) and pending_e(s)
+            self.must_raise = wf_e(s) and (pending_e(s) or (never_solved and has_leaf_e(s)))
         elif isinstance(obj, Constraint):
             s = snap_expr(obj.expression)
             rec = "{| c_cached := %s ; c_dual := %s ; c_expr := %s |}" % (
                 "true" if obj._value is not None else "false",
                 "true" if obj._dual_variable_value is not None else "false", coq_expr(s))
             self.kind, lit = "constraint", "inl (inr (%s, %s))" % (rec, "true" if dual else "false")
-            self.must_raise = (obj._dual_variable_value is None) if dual else \
-                (obj._value is None and wf_e(s) and pending_e(s))
+            self.must_raise = (never_solved or obj._dual_variable_value is None) if dual else \
+                ((obj._value is None and wf_e(s) and pending_e(s)) or (never_solved and wf_e(s) and has_leaf_e(s)))
         elif isinstance(obj, PSDMatrix):
             n0, n1 = obj.shape
             ss = [[snap_expr(obj[i, j]) for j in range(n1)] for i in range(n0)]
@@ -186,8 +194,9 @@ class Case(object):
                 "; ".join("[" + "; ".join(coq_expr(s) for s in row) + "]" for row in ss))
             self.kind, lit = "psd", "inr (%s, %s)" % (rec, "true" if dual else "false")
             flat = [s for row in ss for s in row]
-            self.must_raise = (obj._dual_variable_value is None) if dual else \
-                (obj._value is None and all(wf_e(s) for s in flat) and any(pending_e(s) for s in flat))
+            self.must_raise = (never_solved or obj._dual_variable_value is None) if dual else \
+                (all(wf_e(s) for s in flat) and ((obj._value is None and any(pending_e(s) for s in flat))
+                                                 or (never_solved and any(has_leaf_e(s) for s in flat))))
         else:
             raise TypeError(obj)
         self.snapshot = lit
@@ -233,13 +242,19 @@ def zoo(rng, points, exprs, tag):
     return [("%s / %s" % (tag, l), o) for l, o in out]
 
 
-def cases_of(objs):
+def cases_of(objs, never_solved=False, twice=True):
+    """every accessor on every object, each a second time (a failed first call must not leave a value behind)"""
     from PEPit import Constraint, PSDMatrix
     cs = []
     for label, o in objs:
-        cs.append(Case(label, o))
+        cs.append(Case(label, o, never_solved=never_solved))
         if isinstance(o, (Constraint, PSDMatrix)):
-            cs.append(Case(label + " (dual)", o, dual=True))
+            cs.append(Case(label + " (dual)", o, dual=True, never_solved=never_solved))
+    if twice:
+        for label, o in objs:
+            cs.append(Case(label + " (second call)", o, never_solved=never_solved))
+            if isinstance(o, (Constraint, PSDMatrix)):
+                cs.append(Case(label + " (dual, second call)", o, dual=True, never_solved=never_solved))
     return cs
 
 
@@ -282,10 +297,10 @@ def scenario(name, rng):
         PEP()
         P = [Point() for _ in range(rng.randint(2, 4))]
         X = [Expression() for _ in range(rng.randint(2, 3))]
-        return cases_of(zoo(rng, P, X, "before any solve")), problems
+        return cases_of(zoo(rng, P, X, "before any solve"), never_solved=True), problems
     if name == "built":
         pep, P, X = model_of("solvable", rng)
-        return cases_of(zoo(rng, P, X, "model built, not solved")), problems
+        return cases_of(zoo(rng, P, X, "model built, not solved"), never_solved=True), problems
     if name in ("unbounded", "infeasible"):
         pep, P, X = model_of(name, rng)
         objs = zoo(rng, P, X, "after %s solve" % name)
@@ -301,7 +316,7 @@ def scenario(name, rng):
         objs += [("after %s solve / objective" % name, pep.objective)]
         objs += [("after %s solve / sent constraint" % name, c) for c in pep._list_of_constraints_sent_to_wrapper[:4]]
         objs += [("after %s solve / sent psd" % name, m) for m in pep._list_of_psd_sent_to_wrapper[:2]]
-        return cases_of(objs), problems
+        return cases_of(objs, never_solved=(ret is None)), problems
     if name in ("solved", "solved_new_leaves", "recreated"):
         pep, P, X = model_of("solvable", rng)
         held = zoo(rng, P, X, "held since before the solve")
@@ -516,9 +531,18 @@ def correspondence(tier, seed, corpus=()):
     for payload in corpus or []:
         if replay(payload):
             problems.append(dict(kind="corpus-case-fails", case=payload))
-    s1 = stream_accessors(tier, seed)
-    s1["problems"] = (problems + s1["problems"])[:5]
-    return [s1, stream_solve(tier, seed), stream_options(tier, seed)]
+    out = []
+    for name, fn in (("accessors-vs-model", stream_accessors), ("solve-outcomes", stream_solve), ("options", stream_options)):
+        try:
+            s = fn(tier, seed)
+        except Exception:       # one stream dying must not hide what the others found
+            import traceback
+            s = dict(name=name, evaluations=0, distinct_nontrivial=0, rule="(stream crashed)", samples=["(stream crashed)"],
+                     n_mismatch=1, mismatches=[dict(kind="stream-crashed", error=traceback.format_exc()[-1500:])],
+                     problems=[], distribution={})
+        out.append(s)
+    out[0]["problems"] = (problems + out[0]["problems"])[:5]
+    return out
 
 
 # ------------------------------------------------------------------------------------------ search / findings / replay
@@ -580,7 +604,10 @@ def known_findings(known):
     out = []
     for k in known:
         if k["id"] == "F-C16b":
-            r = mosek_standin_outcome()
+            try:
+                r = mosek_standin_outcome()
+            except Exception:
+                r = None
             if r is None:
                 out.append((k["id"], True, "MOSEK stand-in unavailable; by source inspection MosekWrapper.solve returns xx[-2] "
                             "without looking at the problem status"))
